@@ -226,6 +226,28 @@ fn c16_copy_from() {
     kani::cover!(len == 16, "[must] full-source copy returns");
 }
 
+/// copy_from where the source wrapper is a SHORTER VIEW OF THE DESTINATION'S OWN MEMORY (same start address, 16 of the
+/// 32 bytes): the source range is bounded by the source wrapper's length, not by the destination's - an "in-place copy"
+/// shortcut keyed on pointer equality that checks only the destination (seeded change C16-f) reads bytes outside the
+/// source region. Overlapping ranges are excluded by assumption (the crate copies with copy_nonoverlapping and leaves
+/// overlap to the caller; overlap is not a bounds question).
+// @verif tier=quick loud=1
+#[kani::proof]
+fn c16_copy_from_shorter_view_of_same_memory() {
+    let mut m = Mem::<96>::any();
+    let g = guard_probe();
+    let before = m.0[g];
+    let b = region(&mut m);
+    let sb = b.view(0, 16);
+    let (off, soff, len): (i32, i32, i32) = (kani::any(), kani::any(), kani::any());
+    kani::assume(off as i64 >= soff as i64 + len as i64 || soff as i64 >= off as i64 + len as i64);
+    b.copy_from(off, &sb, soff, len);
+    assert!(m.0[g] == before, "C16: copy_from changed a byte outside the destination region");
+    assert!(in_region(off, len as i64) && len >= 0, "C16: copy_from returned for a destination range outside the region");
+    assert!(soff >= 0 && soff as i64 + len as i64 <= 16, "C16: copy_from returned for a source range outside the source region (the source is a shorter view of the same memory)");
+    kani::cover!(len == 16 && off == 16 && soff == 0, "[must] copy of the whole view into the other half returns");
+}
+
 // @verif tier=quick loud=1 unwind=34
 #[kani::proof]
 fn c16_set_memory() {
